@@ -46,6 +46,7 @@ func runC20(r *Run) {
 	for k := 0; k < nc; k++ {
 		c20Collide(r, int(r.Seed)*2+k)
 	}
+	c20Command(r, 3*n)
 }
 
 // c20Deterministic: "identical from run to run" on schemas with many tables and columns (the generator walks
